@@ -293,17 +293,18 @@ fn class_key(mode: Mode, min: &X) -> String {
         return format!("{}:complex:{}", mode.name(), x_sql(min));
     }
     let (pos, child) = *big[0];
-    match (df_prec(min), df_prec(child)) {
-        (Some(pp), Some(cp)) if mode == Mode::Pretty => {
-            // both binary: the parentheses were dropped by remove_unnecessary_nesting
-            if pp == cp && pos == "right" {
+    let wrapped = |k: &str| k == "Between" || !matches!(k, "Like" | "Not" | "Negative" | "NegativeLiteral" | "Is" | "InList" | "Case" | "Cast");
+    if mode == Mode::Pretty && wrapped(&kind(child)) {
+        // the child is a form the default unparser parenthesises: the parentheses were dropped by remove_unnecessary_nesting
+        return match (df_prec(min), df_prec(child)) {
+            (Some(pp), Some(cp)) if pp == cp && pos == "right" => {
                 if let X::Bin(Operator::Minus | Operator::Divide, ..) = min { format!("pretty:same-precedence-right-operand-of-nonassociative:{}", kind(min)) }
                 else { "pretty:same-precedence-right-operand".to_string() }
-            } else { format!("pretty:precedence-table-disagrees-with-parser[{}]", table_digest()) }
-        }
-        (None, Some(_)) if mode == Mode::Pretty && kind(min) == "Is" => format!("pretty:precedence-table-disagrees-with-parser[{}]", table_digest()),
-        _ => format!("unparenthesised:{}", kind(child)),
+            }
+            _ => format!("pretty:precedence-table-disagrees-with-parser[{}]", table_digest()),
+        };
     }
+    format!("unparenthesised:{}", kind(child))
 }
 
 // ------------------------------------------------------------------------------------------------ sqlparser views (tie data)
@@ -342,6 +343,39 @@ fn ast_json(e: &sq::Expr) -> Option<String> {
         A::InList { expr, list, negated } => format!("{{\"in\":{negated},\"e\":{},\"items\":[{}]}}", ast_json(expr)?, list.iter().map(ast_json).collect::<Option<Vec<_>>>()?.join(",")),
         _ => return None,
     })
+}
+/// canonical text of a sqlparser expression with every node parenthesised and Nested transparent: equal texts = same tree
+fn canon(e: &sq::Expr) -> String {
+    use sq::Expr as A;
+    let c = |e: &sq::Expr| canon(e);
+    match e {
+        A::Nested(a) => c(a),
+        A::BinaryOp { left, op, right } => format!("({} {op} {})", c(left), c(right)),
+        A::UnaryOp { op: sq::UnaryOperator::Minus, expr } if matches!(expr.as_ref(), A::Value(v) if matches!(v.value, sq::Value::Number(..))) => format!("-{}", c(expr)),
+        A::UnaryOp { op, expr } => format!("({op} {})", c(expr)),
+        A::IsDistinctFrom(l, r) => format!("({} IDF {})", c(l), c(r)),
+        A::IsNotDistinctFrom(l, r) => format!("({} INDF {})", c(l), c(r)),
+        A::Like { negated, expr, pattern, .. } => format!("({} LIKE{negated} {})", c(expr), c(pattern)),
+        A::ILike { negated, expr, pattern, .. } => format!("({} ILIKE{negated} {})", c(expr), c(pattern)),
+        A::IsNull(a) => format!("({} ISNULL)", c(a)), A::IsNotNull(a) => format!("({} ISNOTNULL)", c(a)),
+        A::IsTrue(a) => format!("({} ISTRUE)", c(a)), A::IsNotTrue(a) => format!("({} ISNOTTRUE)", c(a)),
+        A::IsFalse(a) => format!("({} ISFALSE)", c(a)), A::IsNotFalse(a) => format!("({} ISNOTFALSE)", c(a)),
+        A::IsUnknown(a) => format!("({} ISUNKNOWN)", c(a)), A::IsNotUnknown(a) => format!("({} ISNOTUNKNOWN)", c(a)),
+        A::InList { expr, list, negated } => format!("({} IN{negated} [{}])", c(expr), list.iter().map(canon).collect::<Vec<_>>().join(", ")),
+        A::Between { expr, negated, low, high } => format!("({} BETWEEN{negated} {} AND {})", c(expr), c(low), c(high)),
+        A::Case { operand, conditions, else_result, .. } => format!("(CASE {:?} {} ELSE {})", operand.as_ref().map(|o| c(o)),
+            conditions.iter().map(|w| format!("WHEN {} THEN {}", c(&w.condition), c(&w.result))).collect::<Vec<_>>().join(" "), else_result.as_ref().map(|o| c(o)).unwrap_or_default()),
+        A::Cast { expr, data_type, .. } => format!("CAST({} AS {data_type})", c(expr)),
+        other => other.to_string(),
+    }
+}
+/// purely syntactic verdict (no types involved): does sqlparser read the unparser's text back as the tree the unparser built?
+fn syntactic_bad(x: &X, mode: Mode) -> bool {
+    let u = Unparser::default().with_pretty(mode == Mode::Pretty);
+    match u.expr_to_sql(&to_expr(x)) {
+        Err(_) => false,
+        Ok(a) => match reparse_ast(&a.to_string()) { Err(_) => true, Ok(b) => canon(&a) != canon(&b) },
+    }
 }
 /// tokens of the text (sqlparser's tokenizer, generic dialect) without white space; None when the text contains a comment
 fn tokens(sql: &str) -> Option<Vec<String>> {
@@ -455,7 +489,7 @@ fn expr_case(env: &Env, id: u64, stream: &str, x: &X, mode: Mode, semantic: bool
         let ok = !matches!(sem.as_str(), "diff" | "reparse_err" | "retype_err" | "unparse_err");
         let (mut key, mut min_sql, mut min_text) = (String::new(), String::new(), String::new());
         if !ok {
-            let bad = |y: &X| !trip(env, y, mode).struct_ok;
+            let bad = |y: &X| syntactic_bad(y, mode);
             if bad(x) {
                 let m = shrink(x, &bad);
                 key = class_key(mode, &m);
@@ -508,7 +542,9 @@ fn dialect_case(id: u64, x: &X, which: usize) {
         let m = shrink(x, &bad);
         let ch = children(&m);
         let big: Vec<String> = ch.iter().filter(|(_, c)| kind(c) != "atom").map(|(_, c)| kind(c)).collect();
-        key = if kind(&m) == "Negative" && big.len() == 1 && (big[0] == "Negative" || big[0] == "NegativeLiteral") { format!("unparenthesised:{}", big[0]) }
+        // the dialect-independent defects keep their class; anything else is specific to the dialect
+        key = if big.len() == 1 && matches!(big[0].as_str(), "Not" | "Is" | "InList" | "Like") { format!("unparenthesised:{}", big[0]) }
+              else if kind(&m) == "Negative" && big.len() == 1 && (big[0] == "Negative" || big[0] == "NegativeLiteral") { format!("unparenthesised:{}", big[0]) }
               else { format!("dialect:{}:unparseable:{}({})", names[which], kind(&m), big.join(",")) };
         min_sql = x_sql(&m);
         min_text = run(&to_expr(&m)).0.unwrap_or_default();
